@@ -1,2 +1,7 @@
+import Drand.Basic
 import Drand.Time
+import Drand.Store.Mem
 import Drand.Driver.Time
+import Drand.Driver.Store
+import Drand.Codec.Hash
+import Drand.Driver.Hash
